@@ -25,7 +25,7 @@ Definition flag (id : N) (ok : bool) : list N := if ok then [] else [id].
 Fixpoint count_in (c : N) (l : list N) : N :=
   match l with [] => 0 | x :: r => (if N.eqb x c then 1 else 0) + count_in c r end.
 
-Definition class_ids : list N := [1;2;3;4;5;6;7;8;9;10;11;12;13;14;15;16].
+Definition class_ids : list N := [1;2;3;4;5;6;7;8;9;10;11;12;13;14;15;16;17;18;19;20].
 
 Definition report {C} (run : C -> verdict) (cases : list (N * C)) : report_t :=
   let vs := map (fun ic => (fst ic, run (snd ic))) cases in
